@@ -26,6 +26,24 @@ fn compare_numbers_for_range<F>(left: &Value, right: &Value, cmp: &F) -> Value
 where
     F: Fn(Ordering) -> bool,
 {
+    // Integers are compared exactly: converting to f64 first merges neighbours above 2^53
+    // (9007199254740993 > 9007199254740992 would be false).
+    match (left, right) {
+        (Value::Int(l), Value::Int(r)) => return Value::Bool(cmp(l.cmp(r))),
+        (Value::Int(l), Value::Float(r)) => {
+            return match compare_int_with_float(*l, *r) {
+                Some(ord) => Value::Bool(cmp(ord)),
+                None => Value::Bool(false),
+            };
+        }
+        (Value::Float(l), Value::Int(r)) => {
+            return match compare_int_with_float(*r, *l) {
+                Some(ord) => Value::Bool(cmp(ord.reverse())),
+                None => Value::Bool(false),
+            };
+        }
+        _ => {}
+    }
     let (l, r) = match (value_as_f64(left), value_as_f64(right)) {
         (Some(l), Some(r)) => (l, r),
         _ => return Value::Null,
@@ -36,6 +54,34 @@ where
     l.partial_cmp(&r)
         .map(|ord| Value::Bool(cmp(ord)))
         .unwrap_or(Value::Null)
+}
+
+/// Exact ordering of an integer against a float (`None` for NaN): the float is split into its
+/// integral part, which fits an i64 once the range is checked, and its fraction.
+pub(super) fn compare_int_with_float(int_value: i64, float_value: f64) -> Option<Ordering> {
+    if float_value.is_nan() {
+        return None;
+    }
+    // 2^63 is exactly representable; every i64 is below it and at or above -2^63.
+    if float_value >= 9_223_372_036_854_775_808.0 {
+        return Some(Ordering::Less);
+    }
+    if float_value < -9_223_372_036_854_775_808.0 {
+        return Some(Ordering::Greater);
+    }
+    let integral = float_value.trunc();
+    let by_integral = int_value.cmp(&(integral as i64));
+    if by_integral != Ordering::Equal {
+        return Some(by_integral);
+    }
+    let fraction = float_value - integral;
+    Some(if fraction > 0.0 {
+        Ordering::Less
+    } else if fraction < 0.0 {
+        Ordering::Greater
+    } else {
+        Ordering::Equal
+    })
 }
 
 fn compare_lists_for_range<F>(left: &[Value], right: &[Value], cmp: &F) -> Value
@@ -140,8 +186,15 @@ pub(super) fn order_compare_non_null(left: &Value, right: &Value) -> Option<Orde
         (Value::Bool(l), Value::Bool(r)) => Some(l.cmp(r)),
         (Value::Int(l), Value::Int(r)) => Some(l.cmp(r)),
         (Value::Float(l), Value::Float(r)) => Some(compare_f64_with_nan(*l, *r)),
-        (Value::Int(l), Value::Float(r)) => Some(compare_f64_with_nan(*l as f64, *r)),
-        (Value::Float(l), Value::Int(r)) => Some(compare_f64_with_nan(*l, *r as f64)),
+        // NaN sorts after every number, as in compare_f64_with_nan.
+        (Value::Int(l), Value::Float(r)) => {
+            Some(compare_int_with_float(*l, *r).unwrap_or(Ordering::Less))
+        }
+        (Value::Float(l), Value::Int(r)) => Some(
+            compare_int_with_float(*r, *l)
+                .map(Ordering::reverse)
+                .unwrap_or(Ordering::Greater),
+        ),
         (Value::String(l), Value::String(r)) => Some(compare_strings_with_temporal(l, r)),
         _ => {
             let rank_cmp = value_order_rank(left).cmp(&value_order_rank(right));
